@@ -436,8 +436,8 @@ def bool_of(v):
 
 
 def build(tier):
-    from . import market_publish
-    return market_publish.build_for('C08', tier) + [
+    from . import market_publish, market_batch
+    return market_publish.build_for('C08', tier) + market_batch.build_next_update('C08', tier) + [
         Obligation('market.deal_proposal_is_internally_valid', run_auth, props_auth,
                    descr='a proposal passes only if its client actor answered AuthenticateMessage successfully with `true`',
                    bounds='one proposal; the nested send may succeed with any answer, fail or hit a syscall error', max_paths=2000),
